@@ -176,9 +176,12 @@ def analysis_case(rec, seedt):
         return
     resultcheck.c10_formulas(res, rec, f"[{desc['sched']}, cross={desc['cross']}] ")
     an = SpectrumAnalyzer(data, desc["fs"], **api.analyzer_kwargs(desc))
-    r1 = api.attempt(rec, lambda: an.compute_single_bin(0.11 * desc["fs"], L=min(desc["N"], 48)))
-    if r1 is not None:
-        resultcheck.c10_formulas(r1, rec, "[single-bin] ")
+    for _ in range(2):
+        fq, skw, lab = api.single_bin_request(rng, desc["fs"], desc["N"])
+        r1 = api.attempt(rec, lambda: an.compute_single_bin(fq, **skw))
+        if r1 is not None:
+            rec.distinct("single_bin_forms", lab)
+            resultcheck.c10_formulas(r1, rec, f"[single-bin {lab}] ")
 
 
 def mc_cell(rec, params):
